@@ -39,7 +39,7 @@ static void c03_run(vf_case *c)
         vf_tag(c, "%s", tall ? "tall" : "square");
         /* a third of the successful direct factorizations is refactored on the same pattern with new values (row pivots and storage reused,
            remembered pivots kept or abandoned; square and tall): the structure judged below is then the refactorization's */
-        if (info == 0 && R.have_LU && n >= 2 && rng_bool(r, 0.35)) {
+        if (info == 0 && R.have_LU && n >= 2 && opt.DiagPivotThresh >= 1e-3 && rng_bool(r, 0.35)) {
             int kind = rng_int(r, 0, 3); vf_mat A2; mat_revalue(r, P, &A, kind, R.perm_r, R.perm_c, &A2);
             int *pr_in = malloc(sizeof(int) * (size_t)(m + 1)); memcpy(pr_in, R.perm_r, sizeof(int) * (size_t)m);
             fact_redo(P, &A2, SamePattern_SameRowPerm, NULL, 0, &R); info = R.info;
